@@ -219,6 +219,7 @@ func firstDiff(a, b interface{}, path string) string {
 // ---------------------------------------------------------------- building the real schema
 
 type world struct {
+	hist     *history
 	retyped  int
 	built    *gq.Built
 	schema   graphql.Schema
@@ -326,6 +327,9 @@ func (w *world) hooks(d *gq.SchemaDesc) gq.Hooks {
 						if err != nil {
 							return nil, nil
 						}
+						if te.NamedName() == "String" && te.Kind != "list" {
+							return "user field " + typeName + "." + fieldName, nil // never the answer to a meta field
+						}
 						v, _ := w.runtimeValue(d, te, typeName+"."+fieldName)
 						return v, nil
 					}
@@ -388,14 +392,16 @@ func build(c caseT, w *world) (err error) {
 	if e != nil {
 		return e
 	}
-	for _, n := range c.Appended {
+	w.schema = s // from here on the one Schema value of the case: plans are bound to &w.schema
+	w.hist.step(0)
+	for i, n := range c.Appended {
 		if t, ok := b.Types[n]; ok {
-			if e := s.AppendType(t); e != nil {
+			if e := w.schema.AppendType(t); e != nil {
 				return fmt.Errorf("AppendType(%s): %v", n, e)
 			}
 		}
+		w.hist.step(i + 1)
 	}
-	w.schema = s
 	return nil
 }
 
@@ -529,7 +535,7 @@ func main() {
 		return
 	}
 	defer drv.Close()
-	run.Res.Rule = "schemas from gen.SchemaGen extended by decorate (descriptions, enums with nil/int/non-name/clashing internal values, input objects with defaults of every kind, list/non-null nests up to 9 layers, deprecations, custom directives, subscription root, an object reachable only through Types); named types split at random into SchemaConfig.Types (shuffled) / AppendType (shuffled) / withheld; full introspection query with TypeRef depth 7 (standard text), exactly-needed, or too small; a schema case is non-trivial when the described type map has an abstract type with >= 1 possible type and >= 1 configured default, distinct by (schema, split, depth); every reported default is counted as a case of the round-trip clause as well, non-trivial when conformant and of enum / input-object / list kind, distinct by (type, value, text)"
+	run.Res.Rule = "schemas from gen.SchemaGen extended by decorate (descriptions, enums with nil/int/non-name/clashing internal values, input objects with defaults of every kind, list/non-null nests up to 9 layers, deprecations, custom directives, subscription root, an object reachable only through Types); named types split at random into SchemaConfig.Types (shuffled) / AppendType (shuffled) / withheld; full introspection query with TypeRef depth 7 (standard text), exactly-needed, or too small; a schema case is non-trivial when the described type map has an abstract type with >= 1 possible type and >= 1 configured default, distinct by (schema, split, depth); every reported default is counted as a case of the round-trip clause as well, non-trivial when conformant and of enum / input-object / list kind, distinct by (type, value, text); one in three cases with AppendType steps also runs a held-plan history (plans of the full and a partial introspection query made by PlanQuery and PlanCache.Get after 0 / some / all steps, each executed after every later checkpoint against the model of the schema at that point), counted as one more case"
 
 	orderTotals := map[string][2]int{}
 	var tDriver time.Duration
@@ -539,6 +545,9 @@ func main() {
 		w := &world{salt: c.Salt, possible: map[string][]string{}}
 		tb := time.Now()
 		defer func() { stage["total"] += time.Since(tb).Seconds() }()
+		if c.Invalid == "" {
+			w.hist = newHistory(c, w, drv)
+		}
 		err := build(c, w)
 		stage["build"] += time.Since(tb).Seconds()
 		if c.Invalid != "" {
@@ -575,6 +584,18 @@ func main() {
 			return out
 		}
 
+		if w.hist != nil {
+			// last checkpoint of the held-plan history: every plan made so far against the final schema
+			modelCopy := roundJSON(m.Tree)
+			w.hist.at(len(c.Appended), modelCopy)
+			run.Tag("held-plan-history")
+			run.Case("history|"+hx.Canon(c), true, nil)
+			run.Res.Extra["held_plan_executions"] = toInt(run.Res.Extra["held_plan_executions"]) + w.hist.executed
+			if w.hist.violation != "" {
+				run.Violation(w.hist.violation, replay(w.hist.extra), false)
+				return
+			}
+		}
 		if !m.WF {
 			run.Violation("NewSchema built a schema that violates the well-formedness hypotheses of the C10 theorems (wfInputTypes / membersOnce)", replay(nil), false)
 			return
@@ -678,6 +699,13 @@ func main() {
 				run.Tag(g.tag)
 				if g.pre == "Ao" && c.Desc.Type("HeldImpl") != nil {
 					run.Tag(g.tag + ":implementer-withheld")
+				}
+			}
+		}
+		for _, t := range c.Desc.Types {
+			for _, f := range t.Fields {
+				if f.Name == "__typename" || (t.Name == c.Desc.Query && (f.Name == "__type" || f.Name == "__schema")) {
+					run.Tag("user-field-named-like-meta-field:" + f.Name)
 				}
 			}
 		}
@@ -799,7 +827,7 @@ func main() {
 		return
 	}
 
-	n := run.N(120, 6000)
+	n := run.N(100, 6000)
 	for i := 0; i < n && !run.TooManyViolations(); i++ {
 		r := hx.Fork(run.Seed, i)
 		c := genCase(r)
@@ -818,6 +846,11 @@ func main() {
 	run.Res.Extra["driver_wall_s"] = tDriver.Seconds()
 	run.Res.Extra["stage_wall_s"] = stage
 	run.Finish()
+}
+
+func toInt(v interface{}) int {
+	i, _ := v.(int)
+	return i
 }
 
 func describeReread(ok bool, coerced interface{}) string {
